@@ -111,6 +111,8 @@ struct FsState {
   int seek_fail_open_index = -1;   // cookie seek fails (ESPIPE) on this open (-2: on all)
   size_t chunk = 4096;             // max bytes per cookie read
   // log
+  std::vector<std::string> other_api;    // file-system entry points other than fopen that the library used, "name(path)"
+  std::string unsupported_api;           // ... one of them that the simulated file system cannot serve (open, opendir, ...): no verdict possible
   std::vector<std::string> opens;  // "path -> ok|ERRNAME"
   int open_count = 0;
   int handles_open = 0;
